@@ -741,6 +741,8 @@ META["explanation"] += " " + "Also (rounds 10-11): the queued wait node starts W
 
 META["explanation"] += " " + 'Also (round 12): a call_rcu helper never sleeps / polls while online (qsbr); nesting rules shared from C01.'
 
+META["explanation"] += " " + 'Also (round 14): bp synchronize_rcu restores the signal mask only after both locks are released (shared from C19).'
+
 RULES = [
     ("C02.sb-upd", rule_sb_upd),
     ("C02.sb-rd", rule_sb_rd),
